@@ -34,6 +34,7 @@ fn spec_name(p: &PointSpec) -> &'static str {
         PointSpec::OnHullPlane(_) => "on_hull_plane",
         PointSpec::Former(_) => "former",
         PointSpec::Extreme(..) => "extreme",
+        PointSpec::AffineComb(_) => "affine_comb",
     }
 }
 
@@ -46,25 +47,8 @@ pub fn state_problems<K: Kern<D>, const D: usize>(w: &World<K, D>, s: &Snap) -> 
         out.push((format!("L{}_{}", i.level, i.kind), i.detail.clone()));
     }
     if rep.bootstrap && s.verts.len() > D {
-        // >= D+1 vertices without cells is only legitimate when no simplex can be formed:
-        // all vertices on a common hyperplane (exactly or within the tolerance band)
-        let pts = s.points();
-        if s.all_finite() {
-            let sp = crate::exact::geom::ScaledPoints::new(&pts);
-            let mut decidable_simplex = false;
-            crate::exact::geom::for_each_subset(pts.len(), D + 1, |sub| {
-                if sp.orient(sub) != 0 {
-                    let m = crate::exact::band::orientation_matrix(&sub.iter().map(|&i| pts[i].clone()).collect::<Vec<_>>());
-                    if matches!(crate::exact::band::analyze(&m, 1e-15).decision, crate::exact::band::Decision::Sign(_)) {
-                        decidable_simplex = true;
-                    }
-                }
-                !decidable_simplex
-            });
-            if decidable_simplex {
-                out.push(("bootstrap_with_full_dimensional_vertices".into(), format!("{} vertices spanning a decidably non-degenerate simplex but no cells", s.verts.len())));
-            }
-        }
+        // the property defines the bootstrap state as "fewer than D+1 vertices, no cells"
+        out.push(("no_cells_with_D_plus_1_or_more_vertices".into(), format!("{} vertices but no cells: neither the bootstrap state nor a valid triangulation", s.verts.len())));
     }
     out
 }
@@ -90,6 +74,12 @@ fn run<K: Kern<D>, const D: usize>(case: &Case, log: &mut CaseLog) {
     for (step, op) in case.ops.iter().enumerate() {
         let had_cells = !before.cells.is_empty();
         let (res, out) = w.apply(&before, op);
+        if matches!(out, Outcome::SetPanicked { .. }) {
+            // debug_assert!(false) inside a policy setter (debug-assertion profile): C19's matter; the
+            // triangulation may be half-updated, so this history ends here
+            log.class("setter_panicked(C19)");
+            break;
+        }
         let after = w.snap();
         log.class(format!("op:{}", out.label()));
         let mut viol = |kind: &str, msg: String, log: &mut CaseLog| {
@@ -111,7 +101,7 @@ fn run<K: Kern<D>, const D: usize>(case: &Case, log: &mut CaseLog) {
         if let Op::Insert { p, .. } = op {
             inserts += 1;
             log.evals += 1;
-            if matches!(p, PointSpec::BeyondHull(..) | PointSpec::OnHullPlane(_) | PointSpec::AtVertex(_) | PointSpec::NearVertex(..) | PointSpec::EdgeMid(..)) {
+            if matches!(p, PointSpec::BeyondHull(..) | PointSpec::OnHullPlane(_) | PointSpec::AtVertex(_) | PointSpec::NearVertex(..) | PointSpec::EdgeMid(..) | PointSpec::AffineComb(_)) {
                 nonhappy += 1;
             }
             let mb = vertex_model(&before);
